@@ -66,7 +66,9 @@ pub fn place(lay: u64, rlens: &[u32], wlens: &[u32]) -> Vec<Seg> {
 
 pub fn build_chain<'a>(mem: &'a Mem, segs: &[Seg]) -> DescriptorChain<&'a Mem> {
     use virtio_queue::{Queue, QueueOwnedT};
-    let vq = MockSplitQueue::new(mem, 256);
+    // a chain can be as long as the queue: 256 unless the case needs more (up to 2048 here)
+    let qsize: u16 = if segs.len() > 256 { (segs.len().next_power_of_two().min(2048)) as u16 } else { 256 };
+    let vq = MockSplitQueue::new(mem, qsize);
     // reset the available index so that the chain we add is the first one returned
     mem.write_obj(0u16, vq.avail_addr().unchecked_add(2)).unwrap();
     let n = segs.len();
